@@ -78,6 +78,7 @@ fn main() {
         "rows" => rows::main(&args),
         "threads" => threads::main(&args),
         "threads-child" => threads::child(&args),
+        "gated" => threads::main_gated(&args),
         "dispatch" => dispatch::main(&args),
         "prims" => prims::main(&args),
         "shards" => shardsdrv::main(&args),
